@@ -54,7 +54,7 @@ package main
 //@   ensures result1 != nil && result1 != iface(ErrClientDisconnect) ==> tried == nvols
 //@   loop 1: invariant tried == $i && nvols == $n && hash == old(hash) && buf == old(buf)
 
-//@ func CompareAndTouch property C01
+//@ func CompareAndTouch property C01,C02
 //@   ghost cmpok bool = false
 //@   ghost touched bool = false
 //@   ghost collided bool = false
@@ -68,7 +68,7 @@ package main
 //@   loop 1: invariant hash == old(hash) && buf == old(buf) && !touched
 //@   loop 1: invariant !collided && bestErr != nil && bestErr != iface(CollisionError)
 
-//@ func PutBlock property C01
+//@ func PutBlock property C01,C02
 //@   ghost stored bool = false
 //@   calls CompareAndTouch#1: requires md5hex(string(block)) == hash && $2 == hash && $3 == block
 //@   calls CompareAndTouch#1: set stored = stored || $r1 == nil
@@ -95,9 +95,16 @@ package main
 //@   calls GetBlock#1: set gsize = $r0
 //@   calls ResponseWriter.Write#1: requires got && $0 == buf[0:gsize]
 //@   calls Header.Set#1: requires got && $1 == itoa(gsize)
+//@   # the verified buffer still belongs to this request while it is being sent:
+//@   # it goes back to the pool (where another request may overwrite it) only
+//@   # after the response has been written
+//@   ghost released bool = false
+//@   calls bufferPool.Put#*: requires $0 == buf
+//@   calls bufferPool.Put#*: set released = true
+//@   calls ResponseWriter.Write#1: requires !released
 
 // handlePUT: the locator line is written only after PutBlock accepted the body.
-//@ func router.handlePUT property C01,C07 safety -bounds
+//@ func router.handlePUT property C01,C02,C07 safety -bounds
 //@   ghost put bool = false
 //@   ghost tok string = ""
 //@   calls PutBlock#1: set put = ($r1 == nil)
@@ -246,6 +253,12 @@ package main
 //@   calls Context.Err#1: requires sel == 2
 //@   calls Context.Err#1: set cerr = $r
 //@   calls PipeWriter.CloseWithError#1: requires sel == 2 ==> $0 == cerr
+
+// The copier goroutine only copies the buffer into the pipe.  The write end is
+// closed in one place only - putWithPipe, with the error that ended the wait -
+// so that an aborted PUT can never look like a clean end of data to WriteBlock.
+//@ func putWithPipe$1 property C02
+//@   only calls: io.Copy bytes.NewReader
 
 // --------------------------------------------------------------------- C19
 // remoteClient: the client used to talk to remote cluster remoteID carries the
